@@ -32,7 +32,8 @@ def exc_class(name):
         import lazy_dataset
         return lazy_dataset.FilterException
     return {'VErrA': VErrA, 'VErrB': VErrB, 'VErrC': VErrC, 'VBase': VBase, 'Exception': Exception,
-            'ValueError': ValueError, 'LookupError': LookupError, 'KeyError': KeyError}[name]
+            'ValueError': ValueError, 'LookupError': LookupError, 'KeyError': KeyError,
+            'IndexError': IndexError}[name]
 
 
 def exc_spec(spec):
